@@ -24,7 +24,11 @@ import (
 	"github.com/lindb/lindb/aggregation/function"
 	"github.com/lindb/lindb/config"
 	"github.com/lindb/lindb/flow"
+	"github.com/lindb/lindb/index"
+	"github.com/lindb/lindb/internal/concurrent"
+	"github.com/lindb/lindb/internal/linmetric"
 	"github.com/lindb/lindb/kv"
+	"github.com/lindb/lindb/metrics"
 	"github.com/lindb/lindb/models"
 	"github.com/lindb/lindb/pkg/option"
 	"github.com/lindb/lindb/pkg/timeutil"
@@ -79,14 +83,22 @@ type env struct {
 	// the last leaf answer and its statement (input of the expression check)
 	lastTSL  *protoCommonV1.TimeSeriesList
 	lastStmt *stmt.Query
+	// oneScanner: the database's scanner pool is replaced by a ONE-worker pool, so that the data-load
+	// stages of one query run one after another (container-boundary cases: on the unchanged tree two
+	// series-id containers of one memory database loaded in parallel race on the shared field entries,
+	// finding memdb-parallel-container-load-shares-field-entries; its witness forces the interleaving)
+	oneScanner bool
+	origPools  []concurrent.Pool
 }
 
-func newEnv(intervalMs int64) (*env, error) {
+func newEnv(intervalMs int64) (*env, error) { return newEnvOpt(intervalMs, false) }
+
+func newEnvOpt(intervalMs int64, oneScanner bool) (*env, error) {
 	dir, err := os.MkdirTemp("", "lvh-c11-*")
 	if err != nil {
 		return nil, err
 	}
-	e := &env{dir: dir, interval: timeutil.Interval(intervalMs), fams: map[int]tsdb.DataFamily{}}
+	e := &env{dir: dir, interval: timeutil.Interval(intervalMs), fams: map[int]tsdb.DataFamily{}, oneScanner: oneScanner}
 	cfg := config.NewDefaultStorageBase()
 	cfg.TSDB.Dir = dir
 	config.SetGlobalStorageConfig(cfg)
@@ -157,8 +169,45 @@ func (e *env) open(create bool) error {
 	}
 	e.db, e.shard = db, shard
 	e.fams = map[int]tsdb.DataFamily{}
+	if e.oneScanner {
+		e.installOneScanner()
+	}
 	e.proc = query.NewLeafTaskProcessor(e.node, engine, e.fct)
 	return nil
+}
+
+var scannerSeq int
+
+// installOneScanner replaces the scanner pool of the open database by a one-worker pool.
+func (e *env) installOneScanner() {
+	pools := e.db.ExecutorPool()
+	e.origPools = append(e.origPools, pools.Scanner)
+	scannerSeq++
+	name := fmt.Sprintf("%s-scanner1-%d", dbName, scannerSeq)
+	pools.Scanner = concurrent.NewPool(name, 1, 5*time.Second, metrics.NewConcurrentStatistics(name, linmetric.StorageRegistry))
+}
+
+// setNextSeriesID makes the next NEW series of the harness metric get the given id (>= 1).
+func (e *env) setNextSeriesID(id uint32) error {
+	mid, err := e.db.MetaDB().GetMetricID(nsName, metricName)
+	if err != nil {
+		return err
+	}
+	index.VerifC11SetSeriesSequence(e.shard.IndexDB(), mid, id-1)
+	return nil
+}
+
+// realSeriesIDs returns the series ids the index database holds for the harness metric.
+func (e *env) realSeriesIDs() ([]uint32, error) {
+	mid, err := e.db.MetaDB().GetMetricID(nsName, metricName)
+	if err != nil {
+		return nil, err
+	}
+	bm, err := e.shard.IndexDB().GetSeriesIDsForMetric(mid)
+	if err != nil {
+		return nil, err
+	}
+	return bm.ToArray(), nil
 }
 
 // reopen closes the engine (flushes every memory database, index and metadata) and opens it again.
@@ -180,6 +229,10 @@ func (e *env) shutdown() {
 	pools.Filtering.Stop()
 	pools.Grouping.Stop()
 	pools.Scanner.Stop()
+	for _, p := range e.origPools {
+		p.Stop()
+	}
+	e.origPools = nil
 }
 
 func (e *env) close() {
